@@ -200,8 +200,9 @@ IPubsFold(cur, g, r, k) ==
           \cup IPubsFold([cur EXCEPT ![n][j] = s], g, r, k + 1)
 
 \* Completeness: after a local tick of n nobody is left FAILED, and nobody active is overdue
+\* (also demanded when the tick ended on an internal error: the failure detector must not stop working)
 Completeness(g1, r) ==
-  (r.a = "Tick" /\ r.post[r.n].alive /\ ~r.err) =>
+  (r.a = "Tick" /\ r.post[r.n].alive) =>
      \A j \in Inst : /\ r.post[r.n].inst[j] # "FAILED"
                      /\ (j # r.n /\ r.post[r.n].inst[j] \in ActiveS /\ g1.recvAt[r.n][j] > 0)
                         => r.post[r.n].tick - g1.recvAt[r.n][j] <= T
@@ -230,6 +231,8 @@ StepFailures(g, r) ==
      \cup (IF Airtight(r) THEN {} ELSE {"C13.Airtight"})
      \cup (IF NoTraffic(r) THEN {} ELSE {"C13.NoTraffic"})
      \cup (IF OnlyAdmitted(r) THEN {} ELSE {"C13.OnlyAdmitted"})
+     \* an instance that never comes back from a step is parked for ever
+     \cup (IF r.hang THEN {"C08.Progress"} ELSE {})
      \cup (IF r.err THEN {"C16.NoInternalError"} ELSE {})
 
 -----------------------------------------------------------------------------
